@@ -4,6 +4,7 @@
 -/
 import Yae.Driver.Wire
 import Yae.Model.Vm
+import Yae.Model.VmVerify
 namespace Yae.Driver
 open Yae SExp Yae.Vm
 
@@ -47,7 +48,7 @@ def handleVm (req : SExp) : Option SExp :=
     let e ← Expr.ofSExp e
     match compile funs e with
     | .ok (code, pool) =>
-      pure (.list [.atom "ok", hexOfCode code, .list (pool.toList.map constToSExp), encBool (verify code pool)])
+      pure (.list [.atom "ok", hexOfCode code, .list (pool.toList.map constToSExp), encBool (VmVerify.verify code pool)])
     | .error err => pure (.list [.atom "err", cerrToSExp err])
   | .list [.atom "vmrun", funs, vars, ext, e] => do
     let funs ← funsOfSExp funs
@@ -65,7 +66,7 @@ def handleVm (req : SExp) : Option SExp :=
   | .list [.atom "verify", code, .list consts] => do
     let code ← codeOfHex code
     let pool ← consts.mapM constOfSExp
-    pure (.list [.atom "ok", encBool (verify code pool.toArray)])
+    pure (.list [.atom "ok", encBool (VmVerify.verify code pool.toArray)])
   | _ => none
 
 end Yae.Driver
